@@ -331,7 +331,7 @@ def gen_ws_msg(r, max_tok=300):
     elif x < 0.8:
         code, tl, pl, opts = 226, 0, 0, [(2, b"")]       # 3 bytes: delivered
     elif x < 0.85:
-        code, tl, pl, opts = r.choice([226, 227, 0]), 0, 0, []    # 2 bytes: dropped by the receiver
+        code, tl, pl, opts = r.choice([226, 227, 0]), 0, 0, []    # 2 bytes: the shortest message
     elif x < 0.95:
         code, tl, pl = 225, 0, 0
         opts = [(2, bytes([0x04, 0x80]))] if r.random() < 0.6 else []
@@ -368,8 +368,7 @@ def gen_ws_stream(r, hs=None, small=False):
             hl = len(f) - len(m)
             hot.extend(range(pos + 1, pos + hl + 1))
             parts.append(f)
-            if len(m) > 2:
-                codes.append(code)
+            codes.append(code)        # 2-byte messages (e.g. Ping 00 e2) are messages too
             pos += len(f)
         x = r.random()
         if x < 0.1:
@@ -487,8 +486,7 @@ def gen_wsc_stream(r, hs=None, small=False):
             hot.extend(range(pos + 1, pos + hl + 1))
             hot.append(pos + len(f))
             parts.append(f)
-            if len(m) > 2:
-                codes.append(code)
+            codes.append(code)        # 2-byte messages (e.g. Ping 00 e2) are messages too
             pos += len(f)
         x = r.random()
         if x < 0.1:
@@ -517,3 +515,24 @@ def gen_wsc_stream(r, hs=None, small=False):
     expect = None if tail == "bad" else (codes, 1 if closes else 0, hkind in ("ok", "ok-variant"))
     return stream, {"hs": hkind, "tail": tail, "hot": [h for h in hot if h < len(stream)],
                     "expect": expect, "hslen": len(hsb)}
+
+
+WSIZE_TARGETS = [124, 125, 126, 127, 128, 65534, 65535, 65536, 65537]
+
+
+def gen_ws_wsize_stream(r, client, target):
+    """handshake, CSM (max message size 8 MiB - 1), GET ?l=<n>: the driver's handler answers with n
+    payload bytes so that the library WRITES a WebSocket message of exactly `target` bytes"""
+    tl = r.choice([0, 1, 4])
+    n = target - 3 - tl
+    csm = gen_wire.py_serialize("ws", 0, 225, 0, b"", [(2, bytes([0x7f, 0xff, 0xff]))], b"")
+    req = gen_wire.py_serialize("ws", 0, 1, 0, gen_wire.rbytes(r, tl), [(11, b"w"), (15, b"l=%d" % n)], b"")
+    if client:
+        hs = WSC_FIRST + b"\r\n" + b"\r\n".join(WSC_LINES) + b"\r\n\r\n"
+        frames = ws_frame(csm, mask=None) + ws_frame(req, mask=None)
+    else:
+        hs = WS_GET + b"\r\n" + b"\r\n".join(WS_LINES) + b"\r\n\r\n"
+        frames = ws_frame(csm, mask=gen_wire.rbytes(r, 4)) + ws_frame(req, mask=gen_wire.rbytes(r, 4))
+    stream = hs + frames
+    return stream, {"hs": "ok", "tail": "wsize%d" % target, "hot": [len(hs) + 1, len(hs) + 3, len(stream) - 3],
+                    "expect": ([225, 1], 0, True), "hslen": len(hs)}
